@@ -18,6 +18,7 @@ def main():
         print(f'no check registered for {a.prop}')
         return 2
     try:
+        build.ensure_fresh()
         return fn(a.tier, a.seed)
     except build.BuildError as e:
         print('ENGINE: build failed:\n' + str(e)[-4000:])
